@@ -209,7 +209,7 @@ func (l *Lexer) lexString(start rune) {
 	for {
 		char := l.reader.Read()
 
-		if char == start {
+		if char == start || char == 0 {
 			break
 		}
 
